@@ -53,7 +53,19 @@ def _frame(rec, clause):
             "for f in hits:\n    print('FAILING INPUT', f['case'], '::', f['what'])\nsys.exit(1 if hits else 0)\n")
 
 
+def _kernel_layers(rec, clause):
+    """layer kernels: the counter-model fixes sizes only (the failing entries are universally quantified): the native witness
+    is searched by the end-to-end stand-in of the property on the same tree"""
+    prop = rec["id"][:3]
+    prop = prop if prop in ("C01", "C06", "C11") else "C01"
+    return ("import sys, importlib\n"
+            f"res = importlib.import_module('native.bounded.{prop}').run('quick', 0).to_json()\n"
+            "for f in res['failures'][:5]:\n    print('FAILING INPUT', f['case'], '::', f['what'])\n"
+            "sys.exit(1 if res['failures'] else 0)\n")
+
+
 GENERATORS = [
+    (re.compile(r"^C(01|03|06|11)\.(kernel|semiring)\."), _kernel_layers),
     (re.compile(r"^C(19|10)\.frame\."), _frame),
     (re.compile(r"^C18\."), _c18),
     (re.compile(r"^C0[234]\.opt\.outer_reduce_flatten"), _outer_reduce),
